@@ -347,8 +347,9 @@ func driveGen(args []string) error {
 	stdout := os.Stdout
 	rng := newRand(707)
 	stats := map[string]int{}
-	rect := image.Rect(0, 0, 64, 64)
 	for i := 0; i < *n; i++ {
+		// the target rectangle sits at the image origin or away from it (same size: the same map apart from the origin)
+		rect := []image.Rectangle{image.Rect(0, 0, 64, 64), image.Rect(5, 9, 69, 73), image.Rect(24, 40, 88, 104)}[i%3]
 		dyadicOnly = i%2 == 0
 		st := genSteps(rng, *steps)
 		if i%3 == 0 {
@@ -482,6 +483,9 @@ var _ = strings.Join
 
 // rasterDigest is a digest of a recorded rasteriser log (kinds, float bits, integers, projected paints).
 func rasterDigest(cs []RCall) string {
+	if cs == nil {
+		cs = []RCall{}
+	}
 	b, _ := json.Marshal(cs)
 	h := sha256.Sum256(b)
 	return hex.EncodeToString(h[:10])
